@@ -124,6 +124,13 @@ def run(tier, seed):
     tfp = []
     for layout in ("short-last", "nested"):
         tfp += tf_pipeline_case(layout)
+    if tier == "thorough":
+        pr, err = iterscen.real_tf_anchor_subprocess()
+        pr = [p for p in pr if "order" in p or "passes differ" in p]
+        if pr:
+            viols.append(Violation("C03:real-tf-anchor", "real TensorFlow run: " + pr[0], dict(kind="real-tf")))
+        if err:
+            errors.append(err)
     if tfp:
         viols.append(Violation("C03:tfrec-pipeline-may-reorder", tfp[0], dict(kind="tf-pipeline")))
     return Result(
@@ -148,6 +155,10 @@ def run(tier, seed):
 
 def replay(case):
     common.import_sedpack()
+    if case.get("kind") == "real-tf":
+        pr, err = iterscen.real_tf_anchor_subprocess()
+        pr = [p for p in pr if "order" in p or "passes differ" in p]
+        return bool(pr), str(pr[:2] or err)
     if case.get("kind") == "tf-pipeline":
         p = tf_pipeline_case("short-last") + tf_pipeline_case("nested")
         return bool(p), str(p)
